@@ -43,16 +43,34 @@ def _same(a: dict, b: dict, skip=()) -> str | None:
     return None
 
 
-def in_segment_probe(ctx, prop: str, n: int, classes=None) -> None:
+BMADX_KINDS = {"BmadxDrift": ("Drift", {"method": "bmadx"}), "BmadxQuadrupole": ("Quadrupole", {"method": "bmadx"}),
+               "BmadxDipole": ("Dipole", {"method": "bmadx", "k1": 0.0}), "TransverseDeflectingCavity": ("TransverseDeflectingCavity", {})}
+STRENGTH = {"Quadrupole": ["k1"], "Dipole": ["angle"], "RBend": ["angle"], "Solenoid": ["k"], "HorizontalCorrector": ["angle"],
+            "VerticalCorrector": ["angle"], "Cavity": ["V"], "TransverseDeflectingCavity": ["V"]}
+
+
+def in_segment_probe(ctx, prop: str, n: int, classes=None, off: float = 0.0) -> None:
+    """off: probability that the element is switched off (strength exactly 0)"""
     rep, rng = ctx.report, ctx.rng
     classes = classes or ["Drift", "Quadrupole", "Dipole", "RBend", "Solenoid", "HorizontalCorrector", "VerticalCorrector",
                           "Undulator", "Cavity"]
     for i in range(n):
-        cls = classes[i % len(classes)]
-        p = LT.tame(E.gen_params(rng, cls))
+        kind = classes[i % len(classes)]
+        cls, force = BMADX_KINDS.get(kind, (kind, {}))
+        p = LT.tame(E.gen_params(rng, cls, force=dict(force)))
+        if force.get("method") == "bmadx":
+            if p.get("L") == 0.0:
+                p["L"] = 0.4
+            if cls == "Dipole" and p["angle"] == 0.0:
+                p["angle"] = 0.05               # (Bmad-X dipole at angle 0 is NaN: a recorded C07/C09 finding)
+            if cls == "Quadrupole":
+                p["num_steps"] = int(E.pick(rng, 1, 2))
+        if rng.random() < off and not (cls == "Dipole" and force.get("method") == "bmadx"):
+            for k in STRENGTH.get(cls, []):
+                p[k] = 0.0
         if cls == "Cavity":
             p["V"] = 0.0                      # (active cavities are not mergeable: C01's subject)
-        thin = cls in THIN_OK and cls not in ("Drift", "Undulator") and rng.random() < 0.4
+        thin = cls in THIN_OK and cls not in ("Drift", "Undulator") and p.get("method", "cheetah") == "cheetah" and rng.random() < 0.4
         if thin:
             p["L"] = 0.0
             if "angle" in p and p["angle"] == 0.0:
@@ -75,7 +93,8 @@ def in_segment_case(rep, prop: str, r: dict) -> None:
         el = mk("el")
     except Exception:  # noqa: BLE001  (record not constructible)
         return
-    for bt in ("ParticleBeam", "ParameterBeam"):
+    only_particles = p.get("method") == "bmadx" or cls == "TransverseDeflectingCavity"
+    for bt in (("ParticleBeam",) if only_particles else ("ParticleBeam", "ParameterBeam")):
         beam = lambda: LT.particle_beam(P, En) if bt == "ParticleBeam" else LT.parameter_beam_from(P, En)   # noqa: E731
         try:
             ref = el.track(beam())
@@ -89,15 +108,23 @@ def in_segment_case(rep, prop: str, r: dict) -> None:
             "between active BPMs": (lambda: cheetah.Segment([bpm("b1"), mk("el"), bpm("b2")], name="s"), lambda b: b, lambda b: b),
             "in a nested sub-segment": (lambda: cheetah.Segment([d(0.3, "d1"), cheetah.Segment([mk("el")], name="sub"), d(0.2, "d2")],
                                                                 name="s"), lambda b: d1.track(b), lambda b: d2.track(b)),
+            "behind a nested sub-segment with an active BPM": (
+                lambda: cheetah.Segment([cheetah.Segment([d(0.3, "d1"), bpm("b1")], name="sub"), mk("el"), d(0.2, "d2")], name="s"),
+                lambda b: d1.track(b), lambda b: d2.track(b)),
         }
         for cname, (mkseg, pre, post) in contexts.items():
             try:
-                got = mkseg().track(beam())
+                seg = mkseg()
+                got = seg.track(beam())
+                again = seg.track(beam())       # the same lattice object once more
                 want = post(el.track(pre(beam())))
             except Exception as e:  # noqa: BLE001
                 rep.fail("falsifier", f"{prop}|{cls}|{thin}|{cname}|{bt}|raises", f"{cls} {cname}: {type(e).__name__}: {e}", dict(r, beam=bt, context=cname))
                 return
             diff = LT.beams_differ(got, want, rtol=1e-11)
+            if diff is None:
+                d2nd = LT.beams_differ(again, got, rtol=0.0)
+                diff = None if d2nd is None else "the second track of the same lattice differs from the first: " + d2nd
             if diff is not None:
                 rep.fail("falsifier", f"{prop}|{cls}|{thin}|{cname}|{bt}",
                          f"{cls} ({', '.join(f'{k}={v!r}' for k, v in p.items() if k != 'cls')}) {cname} acts differently from the element "
@@ -112,6 +139,56 @@ def in_segment_case(rep, prop: str, r: dict) -> None:
                      f"{float((a - b).abs().max()) if a.shape == b.shape else 'shape'}", dict(r, context="transfer_map"))
     except Exception:  # noqa: BLE001  (non-skippable segment: no transfer map)
         pass
+
+
+def retune_probe(ctx, prop: str, n: int) -> None:
+    """caches keyed on too little, including on object identity: the *same* element object tracks the *same* beam object,
+    is re-tuned through its attributes, and tracks that same beam object again: the result is the one of a freshly built
+    element (and, for an active cavity, the transverse area scales by E_in/E_out of the new settings)"""
+    rep, rng = ctx.report, ctx.rng
+    kinds = list(E.WARM_ATTRS)
+    for i in range(n):
+        cls = kinds[i % len(kinds)]
+        a = LT.tame(E.gen_params(rng, cls))
+        b = LT.tame(E.gen_params(rng, cls))
+        if cls == "TransverseDeflectingCavity" or any(not isinstance(a.get(k), float) for k in E.WARM_ATTRS[cls]):
+            continue
+        for k in a:
+            if k not in E.WARM_ATTRS[cls]:
+                b[k] = a[k]                   # only what can be re-tuned through attributes differs
+        if cls in ("Cavity",) and (a["L"] == 0.0 or b["L"] == 0.0):
+            a["L"], b["L"] = 0.7, 1.1
+        r = {"kind": "retune", "a": a, "b": b, "energy": float(E.energy(rng)), "particles": LT.gen_particles(rng, 6).tolist()}
+        rep.fals_cases += 1
+        rep.count("retune:" + cls)
+        rep.case(("retune", cls), None)
+        try:
+            retune_case(rep, prop, r)
+        except Exception as ex:  # noqa: BLE001
+            rep.count(f"retune:rejected:{type(ex).__name__}")
+
+
+def retune_case(rep, prop: str, r: dict) -> None:
+    a, b, En, P = r["a"], r["b"], r["energy"], np.array(r["particles"], dtype=float)
+    cls = a["cls"]
+    for bt in ("ParticleBeam", "ParameterBeam"):
+        beam = LT.particle_beam(P, En) if bt == "ParticleBeam" else LT.parameter_beam_from(P, En)
+        el = E._build(a)
+        try:
+            el.track(beam)
+        except Exception:  # noqa: BLE001
+            continue
+        for k, attr in E.WARM_ATTRS[cls].items():
+            setattr(el, attr, torch.tensor(b[k], dtype=F64))
+        got = el.track(beam)                                       # the same beam object again
+        fresh_beam = LT.particle_beam(P, En) if bt == "ParticleBeam" else LT.parameter_beam_from(P, En)
+        want = E._build(b).track(fresh_beam)
+        diff = LT.beams_differ(got, want, rtol=1e-11)
+        if diff is not None:
+            rep.fail("falsifier", f"{prop}|{cls}|re-tuned, same beam object|{bt}",
+                     f"{cls} tracked a beam, was re-tuned ({', '.join(k for k in E.WARM_ATTRS[cls] if a[k] != b[k])}) and tracked the same beam "
+                     f"object again: differs from a freshly built element with the new settings ({bt}): {diff}", dict(r, beam=bt))
+            return
 
 
 DIAG = ["Marker", "BPM", "ActiveBPM", "Screen", "ActiveScreen", "BlockingScreen", "OpenAperture", "InactiveAperture"]
